@@ -7,6 +7,10 @@
 // The oracle needs no concrete semantics: objects that must describe the same thing are asked the
 // same deterministic questions (after normalising fresh copies) and must give the same answers.
 #include "prog_common.hpp"
+#include <crab/domains/intervals.hpp>
+#include <crab/domains/powerset_domain.hpp>
+#include <crab/domains/split_dbm.hpp>
+#include <crab/domains/term_equiv.hpp>
 
 namespace vf {
 namespace {
@@ -457,6 +461,58 @@ struct Twin {
     return true;
   }
 
+  // (c') the type-erased wrapper abstract_domain<V> against the unwrapped, statically typed domain
+  template <class D> void run_typed(const char *tname) {
+    small = true;
+    int ni = 3 + (int)r.below(2);
+    for (int i = 0; i < ni; ++i) E.ints.push_back(addvar("x", T_INT, 32));
+    for (int i = 0; i < 2; ++i) E.spare.push_back(addvar("t", T_INT, 32));
+    E.B = build(E.p);
+    for (int k = 0; k < 16; ++k) {
+      CState s;
+      s.v.assign(E.p.vars.size(), 0);
+      for (int v : E.ints) s.v[v] = k < 12 ? r.range(-8, 8) : r.range(-200, 200);
+      for (int v : E.spare) s.v[v] = r.range(-8, 8);
+      E.probes.push_back(s);
+    }
+    config = std::string("typed=") + tname + " " + randomize_domain_params(dom, r);
+    std::vector<D> T;
+    std::vector<z_abs_t> A;
+    for (int i = 0; i < NP; ++i) {
+      T.push_back(D());
+      A.push_back(z_abs_t(D()));
+    }
+    int steps = 8 + (int)r.below(24);
+    std::set<int> kinds;
+    try {
+      for (int s = 0; s < steps; ++s) {
+        Op o = gen_op(true);
+        if (o.k == O_BOOL_CST || o.k == O_BOOL_ASSUME) continue;
+        int tgt = (int)r.below(NP);
+        hist += "  " + op_str(E, o, tgt) + "\n";
+        kinds.insert((int)o.k);
+        apply_op(E, T, tgt, o);
+        apply_op(E, A, tgt, o);
+        ctx.count("typed_wrapper_twin_checks");
+        for (int k = 0; k < NP; ++k) {
+          std::vector<std::string> ot = observe(E, T[k]), oa = observe(E, A[k]);
+          if (ot != oa) {
+            fail(std::string("wrapper|abstract_domain-differs-from-typed|") + tname, "#" + std::to_string(k) + " held by abstract_domain answers differently from the same history on the unwrapped " + tname + "\n" + diff_str(ot, oa));
+            return;
+          }
+        }
+      }
+    } catch (crab::verif_error &e) {
+      if (is_refusal(e.msg)) ctx.count("discard:" + refusal_kind(e.msg));
+      else {
+        ctx.note("aborted", std::string(tname) + ":" + e.file + ":" + std::to_string(e.line), kase, e.msg + "\nconfig: " + config + "\nhistory:\n" + hist);
+        ctx.count("aborted_cases");
+      }
+      return;
+    }
+    if (kinds.size() >= 4) ctx.nontrivial_case(hash_str(hist + config));
+  }
+
   void run() {
     small = dom.int64_weights;
     int ni = 3 + (int)r.below(2);
@@ -521,6 +577,26 @@ struct Twin {
 };
 
 } // namespace
+
+void run_typedtwin_case(Ctx &ctx, int64_t kase, Rng &r, const DomInfo &) {
+  ctx.evaluations++;
+  using namespace crab::domains;
+  using vn_t = crab::cfg_impl::varname_t;
+  using itv_t = ikos::interval_domain<ikos::z_number, vn_t>;
+  using sdbm_t = split_dbm_domain<ikos::z_number, vn_t, DBM_impl::DefaultParams<ikos::z_number, DBM_impl::GraphRep::adapt_ss>>;
+  using term_t = term_domain<term::TDomInfo<ikos::z_number, vn_t, itv_t>>;
+  using pow_t = powerset_domain<itv_t>;
+  static const char *names[] = {"int", "sdbm", "term_int", "pow_int"};
+  int which = (int)(kase % 4);
+  const DomInfo *d = find_domain(names[which]);
+  Twin t(ctx, *d, kase, r);
+  switch (which) {
+  case 0: t.run_typed<itv_t>("interval_domain"); break;
+  case 1: t.run_typed<sdbm_t>("split_dbm_domain"); break;
+  case 2: t.run_typed<term_t>("term_domain<interval>"); break;
+  default: t.run_typed<pow_t>("powerset_domain<interval>"); break;
+  }
+}
 
 void run_twin_case(Ctx &ctx, int64_t kase, Rng &r, const DomInfo &d) {
   ctx.evaluations++;
